@@ -92,9 +92,11 @@ func decodeBackInto(b []byte, text bool, dirtyIdx int) (*ref.Frame, error) {
 			buf[i] = ^buf[i]
 		}
 	}
+	// a receiver logs what it received before it works with it: formatting a frame is not an operation on it
+	_ = fmt.Sprintf("%v %s %+v", q, q, &q)
 	if m, ok := q.MACPayload.(*lorawan.MACPayload); ok {
 		if err := q.DecodeFOptsToMACCommands(); err != nil {
-			return nil, fmt.Errorf("DecodeFOptsToMACCommands: %v", err)
+			return nil, fmt.Errorf("DecodeFOptsToMACCommands (after the decoded frame was formatted with %%v / %%s for a log line): %v", err)
 		}
 		if m.FPort != nil && *m.FPort == 0 && len(m.FRMPayload) > 0 {
 			if err := q.DecodeFRMPayloadToMACCommands(); err != nil {
